@@ -713,27 +713,17 @@ func findIndexEntry(entries []*IndexEntry, offset int64) *IndexEntry {
 	if len(entries) == 0 {
 		return &IndexEntry{Offset: 0, Position: 0}
 	}
-	lo := 0
-	hi := len(entries) - 1
-	if offset <= entries[0].Offset {
-		return entries[0]
+	return entries[findIndexEntryIdx(entries, offset)]
+}
+
+// findIndexEntryIdx returns the index of the floor entry for offset: the last
+// entry whose offset is <= offset (the first entry when offset precedes all).
+// entries must be non-empty and sorted by offset.
+func findIndexEntryIdx(entries []*IndexEntry, offset int64) int {
+	// first entry with Offset > offset, minus one
+	idx := sort.Search(len(entries), func(i int) bool { return entries[i].Offset > offset }) - 1
+	if idx < 0 {
+		idx = 0
 	}
-	if offset >= entries[hi].Offset {
-		return entries[hi]
-	}
-	for lo <= hi {
-		mid := (lo + hi) / 2
-		if entries[mid].Offset == offset {
-			return entries[mid]
-		}
-		if entries[mid].Offset < offset {
-			if mid+1 <= hi && entries[mid+1].Offset > offset {
-				return entries[mid]
-			}
-			lo = mid + 1
-		} else {
-			hi = mid - 1
-		}
-	}
-	return entries[0]
+	return idx
 }
